@@ -78,77 +78,10 @@ def write_replay(prop, spec, rec, v, refs, min_info):
     return path
 
 
-def nontrivial(spec, rec, prop):
-    """>=2 library ops of the property's subject returned and >=1 fault kind other
-    than the hash seed fired."""
-    subj = {"C14": model.PUBLIC_OPS, "C12": ("canon", "serialize"), "C16": ("permute",)}[prop]
-    n = sum(1 for o in rec["ops"] if o["op"] in subj and o["st"] in ("ok", "exc"))
-    kinds = [k for k, c in rec["faults"].items() if c and k != "hashseed"]
-    return n >= 2 and len(kinds) >= 1
-
-
-def abridge(spec, rec):
-    def short(ops):
-        return [{k: v for k, v in o.items()} for o in ops[:12]] + ([f"... {len(ops) - 12} more"] if len(ops) > 12 else [])
-
-    return {
-        "run_seed": spec["seed"],
-        "class": spec["cls"],
-        "hashseed": spec["hashseed"],
-        "mean_burst": spec["mean_burst"],
-        "profile": spec["profile"],
-        "gc_auto": spec["gc_auto"],
-        "stall": spec["stall"],
-        "clock_start": spec["clock_start"],
-        "warmup_ops": len(spec["warmup"]),
-        "threads": [short(ops) for ops in spec["threads"]],
-        "schedule_head": rec["schedule"][:12],
-        "schedule_segments": len(rec["schedule"]),
-        "steps": rec["steps"],
-        "switches": rec["switches"],
-        "faults_fired": rec["faults"],
-        "results": [[o["c"], o["i"], o["op"], o["st"], o.get("dg")] for o in rec["ops"][:16]],
-    }
-
-
-def write_evidence(prop, tier, master, batch, violations, known_hits, wall, extra=None):
-    recs = batch.records
-    faults = Counter()
-    probes = Counter()
-    cls_count = Counter()
-    steps = switches = 0
-    sim_s = 0.0
-    lib_ops = returned = 0
-    sigs, fps, pairs, logs_nt = set(), set(), set(), set()
-    hs_used = Counter()
-    for i, r in recs.items():
-        for k, c in r["faults"].items():
-            faults[k] += c
-        for k, c in r["probes"].items():
-            probes[k] += c
-        cls_count[r["cls"]] += 1
-        steps += r["steps"]
-        switches += r["switches"]
-        sim_s += r["sim_seconds"]
-        lib_ops += r["lib_ops"]
-        returned += r["returned"]
-        if r["switches"]:
-            sigs.add(r["sw_sig"])
-        fps.update(r["fingerprints"])
-        pairs.update(r["conflict_pairs"])
-        hs_used[r["hashseed"]] += 1
-        if nontrivial(batch.specs[i], r, prop):
-            logs_nt.add(r["log"])
-    samples = []
-    for i in sorted(recs)[:400]:
-        if nontrivial(batch.specs[i], recs[i], prop):
-            samples.append(abridge(batch.specs[i], recs[i]))
-        if len(samples) >= 3:
-            break
-    if not samples and recs:
-        i = sorted(recs)[0]
-        samples.append(abridge(batch.specs[i], recs[i]))
-    n = len(recs)
+def write_evidence(prop, tier, master, batch, n_violations, known_hits, wall, extra=None):
+    st = batch.stats
+    n = st.n
+    samples = st.samples or ([st.first] if st.first else [])
     ev = {
         "property_id": prop,
         "tier": tier,
@@ -156,26 +89,30 @@ def write_evidence(prop, tier, master, batch, violations, known_hits, wall, extr
         "level": "exploration",
         "coverage": {
             "evaluations": n,
-            "distinct_nontrivial": len(logs_nt),
+            "distinct_nontrivial": len(st.logs_nt),
             "rule": "one evaluation = one simulated run (a pristine forked process executing a seeded spec: warm-up history, 1-4 client threads, seeded schedule, injected faults). A run is non-trivial if >=2 operations of the property's subject returned and >=1 fault kind other than the hash seed actually fired; distinct = distinct SHA-256 digests of the complete step-stamped event log (invoke/return with result digests, context switches with code sites, faults) among the non-trivial runs.",
             "samples": samples,
-            "runs_per_class": dict(sorted(cls_count.items())),
+            "runs_per_class": dict(sorted(st.cls.items())),
             "runs_per_hour": round(n / max(wall, 1e-9) * 3600),
             "seeds_per_hour": round(n / max(wall, 1e-9) * 3600),
-            "simulated_seconds_advance": round(sim_s, 3),
-            "steps_executed": steps,
-            "context_switches": switches,
-            "fault_kinds_fired": dict(sorted(faults.items())),
-            "probes": dict(sorted(probes.items())),
-            "fraction_of_library_ops_returned_normally_or_with_own_exception": round(returned / max(1, lib_ops), 4),
-            "distinct_context_switch_signatures": len(sigs),
-            "distinct_conflict_pairs": len(pairs),
-            "conflict_pair_examples": sorted(pairs)[:8],
-            "distinct_antlr_cache_fingerprints": len(fps),
+            "simulated_seconds_advance": round(st.sim_s, 3),
+            "steps_executed": st.steps,
+            "context_switches": st.switches,
+            "fault_kinds_fired": dict(sorted(st.faults.items())),
+            "probes": dict(sorted(st.probes.items())),
+            "operations_by_outcome": dict(sorted(st.op_counts.items())),
+            "fraction_of_library_ops_returned_normally_or_with_own_exception": round(st.returned / max(1, st.lib_ops), 4),
+            "distinct_context_switch_signatures": len(st.sigs),
+            "distinct_conflict_pairs": len(st.pairs),
+            "conflict_pair_examples": sorted(st.pairs)[:8],
+            "distinct_antlr_cache_fingerprints": len(st.fps),
+            "simulated_fs_opens": st.fs_opens,
+            "simulated_fs_rewrites": st.fs_writes,
+            "simulated_clock_reads": st.clock_reads,
             "reference_keys": len(batch.refs.by_key),
             "reference_jobs": batch.refs.jobs_run,
             "hash_seeds": batch.HS,
-            "runs_per_hash_seed": {str(k): v for k, v in sorted(hs_used.items())},
+            "runs_per_hash_seed": {str(k): v for k, v in sorted(st.hs.items())},
             "clock_seam_effective": batch.refs.clock_seam_effective,
             "header_clock_positions": batch.refs.l2_mask,
             "template_processes_started": batch.farm.template_starts,
@@ -191,13 +128,15 @@ def write_evidence(prop, tier, master, batch, violations, known_hits, wall, extr
             "a clean batch is evidence, not proof",
         ],
         "wall_s": round(wall, 2),
-        "violations": len(violations),
+        "violations": n_violations,
     }
     if extra:
         ev["coverage"].update(extra)
     os.makedirs(os.path.join(VERIF, "evidence"), exist_ok=True)
-    with open(os.path.join(VERIF, "evidence", f"{prop}.json"), "w") as f:
+    tmp = os.path.join(VERIF, "evidence", f".{prop}.json.tmp")
+    with open(tmp, "w") as f:
         json.dump(ev, f, indent=1)
+    os.replace(tmp, os.path.join(VERIF, "evidence", f"{prop}.json"))
     return ev
 
 
@@ -210,15 +149,15 @@ def run_check(prop, tier, master, params=None, runs=None, verbose=True, evidence
     batch.say(f"check {prop} tier={tier} VERIF_SEED={master} runs={batch.p['runs']} tree={repo_path()} workers={batch.farm.workers}")
     batch.build_pool()
     batch.make_specs()
-    nk = batch.ensure_refs_for(list(batch.specs.values()))
+    batch.collect_refs()
     batch.say(f"references: {len(batch.refs.by_key)} keys ({batch.refs.jobs_run} isolated jobs)")
     batch.execute()
-    batch.say(f"{len(batch.records)} runs executed, {len(batch.harness_errors)} harness errors")
+    batch.say(f"{batch.stats.n} runs executed, {len(batch.harness_errors)} harness errors")
     all_v = []
     for k, (a, b) in sorted(batch.refs.failed.items()):
         all_v.append((None, {"prop": "C14", "clause": "isolated_computations_disagree", "c": 0, "i": 0, "op": "ref", "key": k, "detail": f"{a['dg']} vs {b['dg']}"}))
-    for i in sorted(batch.records):
-        for v in evaluate(batch.specs[i], batch.records[i], batch.refs):
+    for i in sorted(batch.violating):
+        for v in batch.violating[i][2]:
             all_v.append((i, v))
     mine = [(i, v) for i, v in all_v if v["prop"] == prop]
     others = Counter(v["prop"] for i, v in all_v if v["prop"] != prop)
@@ -239,16 +178,17 @@ def run_check(prop, tier, master, params=None, runs=None, verbose=True, evidence
         by_class = defaultdict(list)
         for i, v in fresh:
             by_class[vclass(v)].append((i, v))
+        rdir = os.environ.get("VERIF_REPLAY_DIR") or os.path.join(VERIF, "replays")
         for cls in sorted(by_class)[:3]:
-            i, v = min(by_class[cls], key=lambda iv: (len(json.dumps(batch.specs[iv[0]])) if iv[0] is not None else 0))
+            i, v = min(by_class[cls], key=lambda iv: (len(json.dumps(batch.violating[iv[0]][0])) if iv[0] is not None else 0))
             if i is None:
-                path = os.path.join(os.environ.get("VERIF_REPLAY_DIR") or os.path.join(VERIF, "replays"), f"{prop}-ref-{hashlib.sha256(v['key'].encode()).hexdigest()[:8]}.json")
+                path = os.path.join(rdir, f"{prop}-ref-{hashlib.sha256(v['key'].encode()).hexdigest()[:8]}.json")
                 os.makedirs(os.path.dirname(path), exist_ok=True)
                 json.dump({"property": prop, "violation": v, "class": list(cls)}, open(path, "w"), indent=1)
                 replay_paths.append(path)
                 continue
-            spec, rec = batch.specs[i], batch.records[i]
-            batch.say(f"violation class {cls}: {len(by_class[cls])} occurrence(s); minimising run seed {spec['seed']} ...")
+            spec, rec, _ = batch.violating[i]
+            batch.say(f"violation class {cls}: {batch.violation_count[cls]} occurrence(s); minimising run seed {spec['seed']} ...")
             mz = Minimizer(batch, cls, budget_runs=int(os.environ.get("VERIF_MIN_RUNS", 400)), budget_s=float(os.environ.get("VERIF_MIN_SECONDS", 600)))
             try:
                 mspec, mrec, mv = mz.run(spec, rec, v)
@@ -256,23 +196,26 @@ def run_check(prop, tier, master, params=None, runs=None, verbose=True, evidence
                 batch.say(f"minimisation failed ({e!r}); reporting the unminimised run")
                 mspec, mrec, mv = spec, rec, v
             info = {"candidates_tried": mz.tried, "ops_before": sum(len(o) for _, o in model.spec_clients(spec)), "ops_after": sum(len(o) for _, o in model.spec_clients(mspec)), "threads_before": len(spec["threads"]), "threads_after": len(mspec["threads"]), "segments_after": len(mspec.get("schedule") or [])}
+            info["explanation"] = batch.explain(mspec, mv)
             path = write_replay(prop, mspec, mrec, mv, batch.refs, info)
             replay_paths.append(path)
             batch.say(f"  {mv['clause']} on {mv['op']} key={mv['key']}: {mv['detail'][:300]}")
+            if info["explanation"].get("first_difference"):
+                batch.say(f"  first difference: {info['explanation']['first_difference'][:400]}")
             batch.say(f"  minimised {info['ops_before']} -> {info['ops_after']} ops, {info['threads_before']} -> {info['threads_after']} threads, {mz.tried} candidates")
     wall = time.monotonic() - t0
     if evidence:
-        write_evidence(prop, tier, master, batch, [v for _, v in fresh], sorted(set(known_hits)), wall)
+        write_evidence(prop, tier, master, batch, len(fresh), sorted(set(known_hits)), wall)
     if batch.harness_errors:
-        for i, st, err in batch.harness_errors[:5]:
-            print(f"HARNESS-ERROR run={i} seed={batch.specs[i]['seed']} {st}: {err[-1500:]}", flush=True)
+        for i, seed, st, err in batch.harness_errors[:5]:
+            print(f"HARNESS-ERROR run={i} seed={seed} {st}: {err[-1500:]}", flush=True)
     for p in replay_paths:
         print(f"VIOLATION property={prop} replay={os.path.relpath(p, VERIF)}", flush=True)
     if replay_paths:
         return 1
     if batch.harness_errors:
         return 2
-    batch.say(f"OK {prop}: {len(batch.records)} runs, 0 violations, wall {wall:.1f}s")
+    batch.say(f"OK {prop}: {batch.stats.n} runs, 0 violations, wall {wall:.1f}s")
     return 0
 
 
